@@ -446,6 +446,7 @@ func runC14(c *Ctx, tier string) {
 	runObjectsBeforeCommit(c, "C14-O1")
 	stableSorts(c, "C14-S1", []string{"runtime/sam/op/meta.sortObjects", "(*runtime/sam/expr.Comparator).sortStableIndices"})
 	runDeleteComplement(c)
+	runSlicerBounds(c, "C14-S2")
 }
 
 // stableSorts: the named functions sort with a stable algorithm.
@@ -896,5 +897,115 @@ func runDeleteComplement(c *Ctx) {
 		} else {
 			c.Fail("C14-W1", "(*compiler/kernel.DeleteFilter).AsBufferFilter", ab.Pos(), "the deleter is given a buffer filter: an over-approximation of P is not an over-approximation of its complement, so frames whose values must be kept are dropped")
 		}
+	}
+}
+
+// runSlicerBounds: C14-S2.  The slicer groups overlapping objects by comparing each new object with
+// the running [min,max] hull of the group; the hull must really be the running minimum of the objects'
+// Min and the running maximum of their Max, in whatever order the lister delivers them (ascending or
+// descending pools).
+func runSlicerBounds(c *Ctx, rule string) {
+	p := c.P
+	c.Rule(rule, "the slicer's partition hull is a running minimum / maximum: every update of Slicer.min (max) is taken when it is unset or when cmp says the new object's Min is smaller (Max is larger), and the overlap test compares the new object against both ends of the hull")
+	fn := p.Func("(*runtime/sam/op/meta.Slicer).stash")
+	if fn == nil {
+		c.Undecided(rule, "(*runtime/sam/op/meta.Slicer).stash", "anchor does not resolve")
+		return
+	}
+	// comparisons: cmp(a, b) OP 0 where cmp is the Slicer's CompareFn
+	type cmpInfo struct {
+		bin      *ssa.BinOp
+		a, b     ssa.Value
+		op       token.Token
+	}
+	var cmps []cmpInfo
+	for _, b := range fn.Blocks {
+		for _, in := range b.Instrs {
+			bo, ok := in.(*ssa.BinOp)
+			if !ok {
+				continue
+			}
+			k, isK := bo.Y.(*ssa.Const)
+			call, isCall := bo.X.(*ssa.Call)
+			if !isK || !isCall || k.Value == nil || k.Int64() != 0 || namedOf(call.Call.Value.Type()) != "runtime/sam/expr.CompareFn" || len(call.Call.Args) != 2 {
+				continue
+			}
+			cmps = append(cmps, cmpInfo{bo, call.Call.Args[0], call.Call.Args[1], bo.Op})
+		}
+	}
+	isHull := func(v ssa.Value, f string) bool {
+		return dependsOn(v, func(w ssa.Value) bool { return isFieldOf(w, "runtime/sam/op/meta.Slicer", f) })
+	}
+	isObj := func(v ssa.Value, f string) bool {
+		return dependsOn(v, func(w ssa.Value) bool { return isFieldOf(w, "lake/data.Object", f) })
+	}
+	for _, spec := range []struct {
+		field, objField string
+		op, swapped     token.Token
+		what            string
+	}{
+		{"min", "Min", token.GTR, token.LSS, "minimum"},
+		{"max", "Max", token.LSS, token.GTR, "maximum"},
+	} {
+		var stores []*ssa.Store
+		for _, fs := range fieldStores(p, spec.field) {
+			if fs.fn == fn && fs.strukt == "runtime/sam/op/meta.Slicer" && !isNilConst(fs.store.Val) {
+				stores = append(stores, fs.store)
+			}
+		}
+		construct := "(*runtime/sam/op/meta.Slicer).stash running " + spec.what
+		if len(stores) == 0 {
+			c.Fail(rule, construct, fn.Pos(), "the partition's "+spec.what+" is never recorded")
+			continue
+		}
+		ok := true
+		for _, st := range stores {
+			if !isObj(st.Val, spec.objField) {
+				ok = false
+				c.Fail(rule, construct, st.Pos(), "Slicer."+spec.field+" is not set from the new object's "+spec.objField)
+				continue
+			}
+			// some comparison hull-vs-object with the right sense must lead to this store
+			guarded := false
+			for _, ci := range cmps {
+				sense := false
+				if isHull(ci.a, spec.field) && isObj(ci.b, spec.objField) && (ci.op == spec.op || (spec.op == token.GTR && ci.op == token.GEQ) || (spec.op == token.LSS && ci.op == token.LEQ)) {
+					sense = true
+				}
+				if isObj(ci.a, spec.objField) && isHull(ci.b, spec.field) && (ci.op == spec.swapped || (spec.swapped == token.LSS && ci.op == token.LEQ) || (spec.swapped == token.GTR && ci.op == token.GEQ)) {
+					sense = true
+				}
+				if !sense {
+					continue
+				}
+				for _, r := range *ci.bin.Referrers() {
+					if iff, isIf := r.(*ssa.If); isIf && (iff.Block().Succs[0] == st.Block() || iff.Block().Succs[0].Dominates(st.Block())) {
+						guarded = true
+					}
+				}
+			}
+			if !guarded {
+				ok = false
+				c.Fail(rule, construct, st.Pos(), "Slicer."+spec.field+" is only set when it is unset (or not under a comparison of the hull with the new object's "+spec.objField+"): it is not a running "+spec.what+". For descending pools (and any lister order other than ascending "+spec.objField+") the hull is stale, overlapping objects are split into separate partitions, and scans / compactions emit values out of pool-key order")
+			}
+		}
+		if ok {
+			c.OK(rule, construct, stores[0].Pos(), "updated when unset or when cmp(hull, object."+spec.objField+") says so")
+		}
+	}
+	// overlap test uses both ends
+	lo, hi := false, false
+	for _, ci := range cmps {
+		if (isObj(ci.a, "Max") && isHull(ci.b, "min") && ci.op == token.LSS) || (isHull(ci.a, "min") && isObj(ci.b, "Max") && ci.op == token.GTR) {
+			lo = true
+		}
+		if (isObj(ci.a, "Min") && isHull(ci.b, "max") && ci.op == token.GTR) || (isHull(ci.a, "max") && isObj(ci.b, "Min") && ci.op == token.LSS) {
+			hi = true
+		}
+	}
+	if lo && hi {
+		c.OK(rule, "(*runtime/sam/op/meta.Slicer).stash overlap test", fn.Pos(), "object.Max < hull.min || object.Min > hull.max closes the partition")
+	} else {
+		c.Fail(rule, "(*runtime/sam/op/meta.Slicer).stash overlap test", fn.Pos(), "the new object is not compared strictly against both ends of the hull (object.Max < min, object.Min > max): overlapping objects can land in different partitions")
 	}
 }
